@@ -1,6 +1,201 @@
-(* C12 - child processes.  Statements only. *)
+(* C12 - Child processes.  Only statements, each closed by [exact] of a lemma
+   proved in Proofs/ProcessProofs.v, with Print Assumptions beneath.
+
+   Vocabulary (Model/Process.v): a table maps descriptor numbers to (open file,
+   FD_CLOEXEC); [us] is pipes[0..stdio_count-1][1] as uv__process_child_init
+   receives it (None = -1); [child_init us exec_errno t] is the child from
+   process.c:320 to the exec; [spawn_child] is uv__spawn_and_init_child;
+   [uv_spawn] and [run] are the parent and the loop. *)
 From UV Require Import Lib.Base Model.Process Proofs.ProcessProofs.
+
+(* ---- the child's descriptors ------------------------------------------ *)
+
+(* For every table of the parent at fork time, every stdio_count (= length us)
+   and every mapping whose sources are open - permutations, swaps, duplicates,
+   sources below, inside or above the target range - the shuffle succeeds and,
+   after exec, slot i holds the file the container named (or /dev/null for an
+   ignored slot 0-2; an ignored slot >= 3 keeps what the parent had there if
+   that was inheritable), FD_CLOEXEC is clear on every descriptor, and any
+   descriptor >= stdio_count is open iff the parent had it open without
+   FD_CLOEXEC.  Hence, when every descriptor of the parent that is not the
+   target of a mapping is FD_CLOEXEC, nothing else is open in the child. *)
+Theorem C12_child_fds :
+  forall (t : tbl) (us : list (option nat)),
+  sources_open t us ->
+  exists t', child_init us None t = CExec t' /\
+    (forall i, i < length us ->
+       get t' i = match nth i us None with
+                  | Some u => option_map (fun e => mkE (e_file e) false) (get t u)
+                  | None => if i <? 3 then Some (mkE devnull false) else exec_entry (get t i)
+                  end) /\
+    (forall d, length us <= d -> get t' d = exec_entry (get t d)) /\
+    (forall d e, get t' d = Some e -> e_cx e = false) /\
+    (others_cloexec t us ->
+     forall d, get t' d <> None -> d < length us /\ (d < 3 \/ nth d us None <> None)).
+Proof.
+  intros t us Ho. destruct (child_fds t us Ho) as (t' & E & A & B).
+  exists t'. split; [exact E|]. split; [exact A|]. split; [exact B|]. split.
+  - intros d e H. unfold child_init in E.
+    destruct (pass1 (length us) 0 us t) as [[t1 us1]|]; [|discriminate].
+    destruct (pass2 (length us) 0 us1 t1); [|discriminate].
+    inversion E; subst. exact (exec_cx_clear _ _ _ H).
+  - intros Hc. exact (child_no_other t us t' Ho Hc E).
+Qed.
+Print Assumptions C12_child_fds.
+
+(* the hypotheses are satisfiable by a non-trivial layout: 0,1,2 and two files
+   on 3 (close-on-exec) and 7; swap of 1 and 2, 3 from 7, 4 from 3, 5 ignored *)
+Example C12_child_fds_example :
+  let t := [Some (mkE 1 false); Some (mkE 2 false); Some (mkE 3 false);
+            Some (mkE 4 true); None; None; None; Some (mkE 5 true)] in
+  let us := [Some 0; Some 2; Some 1; Some 7; Some 3; None] in
+  sources_open t us /\ others_cloexec t us /\
+  child_init us None t =
+    CExec [Some (mkE 1 false); Some (mkE 3 false); Some (mkE 2 false);
+           Some (mkE 5 false); Some (mkE 4 false); None; None; None; None].
+Proof.
+  cbv zeta. split; [|split; [|vm_compute; reflexivity]].
+  - intros k u Hk.
+    do 6 (destruct k as [|k]; [inversion Hk; subst; vm_compute; discriminate|]).
+    destruct k; discriminate.
+  - intros d e [H|[H3 Hn]] Hg.
+    + simpl in H. do 6 (destruct d as [|d]; [lia|]).
+      destruct d as [|d]; [discriminate|]. destruct d as [|d]; [inversion Hg; reflexivity|].
+      destruct d; discriminate.
+    + do 3 (destruct d as [|d]; [lia|]).
+      do 2 (destruct d as [|d]; [discriminate|]).
+      destruct d as [|d]; [discriminate|].
+      destruct d as [|d]; [discriminate|]. destruct d as [|d]; [inversion Hg; reflexivity|].
+      destruct d; discriminate.
+Qed.
+Print Assumptions C12_child_fds_example.
+
+(* ---- the error pipe ------------------------------------------------------ *)
+
+(* If the write end of the error pipe is at or above stdio_count, or on an
+   unmapped slot >= 3, the errno of a failing exec reaches the parent:
+   uv__spawn_and_init_child returns -errno and has reaped the child. *)
+Theorem C12_exec_failure_reported :
+  forall t us fresh e wo t1 rfd t2 wfd,
+  alloc t 0 fresh true = (t1, rfd) ->          (* pipe2: read end *)
+  alloc t1 0 (S fresh) true = (t2, wfd) ->     (* write end = error_fd *)
+  sources_open t us ->
+  (length us <= wfd \/ (3 <= wfd /\ nth wfd us None = None)) ->
+  sc_ret (spawn_child t us fresh false false (Some e) wo) = (- e)%Z /\
+  sc_reaped (spawn_child t us fresh false false (Some e) wo) = Some (fst (wait_retry wo)).
+Proof. exact exec_failure_reported. Qed.
+Print Assumptions C12_exec_failure_reported.
+
+(* Without that hypothesis the statement is false: the error pipe is created
+   after the stdio pairs, lands on a number below stdio_count, pass 2 dup2()s a
+   stdio source over it, the child writes the errno into the user's file and
+   the parent sees EOF = success (DESIGN section 3 item 11). *)
+Theorem C12_error_pipe_clobbered_refuted :
+  ~ (forall t us fresh e wo, sources_open t us ->
+       sc_ret (spawn_child t us fresh false false (Some e) wo) = (- e)%Z).
+Proof.
+  intros H. destruct error_pipe_clobbered_witness as (Ho & E).
+  specialize (H _ _ 10 2%Z [] Ho). rewrite E in H. discriminate.
+Qed.
+Print Assumptions C12_error_pipe_clobbered_refuted.
+
+(* the same witness seen through uv_spawn and the loop: ENOENT, yet uv_spawn
+   returns 0, the handle is active, the int -2 goes into the file behind
+   descriptor 1, and exit_cb(127, 0) runs later *)
+Theorem C12_failed_spawn_clean_refuted :
+  exists sp, s_exec_err sp = Some 2%Z /\
+    r_ret (fst (uv_spawn sp [])) = 0%Z /\
+    r_active (fst (uv_spawn sp [])) = true /\
+    r_wrote (fst (uv_spawn sp [])) = Some (Some 2, (-2)%Z) /\
+    exits (snd (run linit [OSpawn 0 sp []; OScan [WPid 32512%Z]])) = [(0, 127%Z, 0%Z)].
+Proof. exists clobber_spec. split; [reflexivity|]. exact clobber_run. Qed.
+Print Assumptions C12_failed_spawn_clean_refuted.
+
+(* what does hold for failed spawns: whenever uv_spawn returns an error the
+   handle is not queued and no exit callback ever runs for it ... *)
+Theorem C12_failed_spawn_clean_partial :
+  forall ops s' evs h sp wo,
+  NoDup (spawn_handles ops) -> run linit ops = (s', evs) ->
+  In (OSpawn h sp wo) ops -> r_ret (fst (uv_spawn sp wo)) <> 0%Z ->
+  r_active (fst (uv_spawn sp wo)) = false /\
+  forall es ts, ~ In (h, es, ts) (exits evs).
+Proof.
+  intros ops s' evs h sp wo N R I Hr. split.
+  - exact (ret_nonzero_inactive sp wo Hr).
+  - exact (failed_spawn_no_exit ops s' evs h sp wo N R I Hr).
+Qed.
+Print Assumptions C12_failed_spawn_clean_partial.
+
+(* ... and a uv_spawn without UV_CREATE_PIPE slots leaves the parent's table as
+   it was on every path (success, EINVAL, pipe2/fork/exec failure): every
+   descriptor created on the way has been closed. *)
+Theorem C12_spawn_no_descriptor_left :
+  forall sp wo, (forall c, In c (s_stdio sp) -> c <> SPipe) ->
+  forall d, get (r_ptbl (fst (uv_spawn sp wo))) d = get (s_tbl sp) d.
+Proof. exact spawn_no_leak. Qed.
+Print Assumptions C12_spawn_no_descriptor_left.
+
+(* ---- exits ---------------------------------------------------------------- *)
+
+(* For every script of spawns, closes and uv__wait_children passes and every
+   sequence of waitpid answers (not exited / EINTR / ECHILD / exited with any
+   status, in any interleaving): the exit callbacks run so far are, in order,
+   those owed to the reaped children that have a callback, each with the
+   decoded status of the waitpid answer that reaped it; and unless the loop
+   hit abort() (waitpid failing with an unexpected errno) none is missing. *)
+Theorem C12_exit_once_true_status :
+  forall ops s s' evs,
+  run s ops = (s', evs) ->
+  (l_abort s' = false -> exits evs = owed (reaps evs)) /\
+  exists rest, owed (reaps evs) = exits evs ++ rest.
+Proof. exact exit_once_true_status. Qed.
+Print Assumptions C12_exit_once_true_status.
+
+(* "exactly one": starting from an empty loop with a fresh handle per uv_spawn,
+   no handle is reaped twice, and only handles whose uv_spawn activated them
+   are reaped. *)
+Theorem C12_reaped_once :
+  forall ops s' evs,
+  NoDup (spawn_handles ops) -> run linit ops = (s', evs) ->
+  NoDup (reaped_handles evs) /\
+  forall h, In h (reaped_handles evs) -> In h (active_handles ops).
+Proof. exact reaped_once. Qed.
+Print Assumptions C12_reaped_once.
+
+Example C12_exit_example :
+  exits (snd (run linit
+     [OSpawn 0 (mkSpec [] [] true 100 10 None false false None) [];
+      OSpawn 1 (mkSpec [] [] true 101 20 None false false None) [];
+      OScan [WZero; WEintr; WPid 15%Z];
+      OScan [WPid 768%Z]])) = [(1, 0%Z, 15%Z); (0, 3%Z, 0%Z)].
+Proof. vm_compute. reflexivity. Qed.
+Print Assumptions C12_exit_example.
+
+(* ---- status words ---------------------------------------------------------- *)
 Local Open Scope Z_scope.
-Theorem C12_decode_zero : decode 0 = (0, 0).
-Proof. exact decode_exit_0. Qed.
-Print Assumptions C12_decode_zero.
+
+(* the four macros, as bit operations, for every 16-bit status word *)
+Theorem C12_status_macros :
+  forall s, 0 <= s < 65536 ->
+  WIFEXITED s = (s mod 128 =? 0) /\
+  WIFSIGNALED s = ((1 <=? s mod 128) && (s mod 128 <=? 126)) /\
+  WEXITSTATUS s = (s / 256) mod 256 /\
+  WTERMSIG s = s mod 128.
+Proof. exact status_macros. Qed.
+Print Assumptions C12_status_macros.
+
+Theorem C12_status_decode :
+  forall s, 0 <= s < 65536 ->
+  decode s = (if s mod 128 =? 0 then ((s / 256) mod 256, 0)
+              else if s mod 128 <=? 126 then (0, s mod 128) else (0, 0)) /\
+  0 <= fst (decode s) < 256 /\ 0 <= snd (decode s) < 127 /\
+  (fst (decode s) = 0 \/ snd (decode s) = 0).
+Proof. intros s H. split; [exact (decode_spec s H)|exact (decode_range s H)]. Qed.
+Print Assumptions C12_status_decode.
+
+(* exit(c) is reported as (c, 0); death by signal g, with or without a core, as (0, g) *)
+Theorem C12_status_roundtrip :
+  (forall c, 0 <= c < 256 -> decode (256 * c) = (c, 0)) /\
+  (forall g core, 1 <= g <= 126 -> 0 <= core <= 1 -> decode (g + 128 * core) = (0, g)).
+Proof. split; [exact decode_exit|exact decode_signal]. Qed.
+Print Assumptions C12_status_roundtrip.
